@@ -634,9 +634,9 @@ def refine_droplet(
     # in case the droplet is so small that it does not cover any support point)
     levels = data_mask if data_mask.size > 0 else phase_field.data
     if vmin is None:
-        vmin = np.min(levels)
+        vmin = float(np.min(levels))
     if vmax is None:
-        vmax = np.max(levels)
+        vmax = float(np.max(levels))
     vrng = vmax - vmin
 
     if adjust_values and vrng != 0:
